@@ -183,6 +183,7 @@ func runOne(st Stim) Trace {
 		w.keys = append(w.keys, limiter.VerifKey(newReq(context.Background(), p, 0).Options()))
 	}
 	started := map[int]bool{}
+	dead := map[int]bool{} // cancelled before it arrived: issued with a context that is already done
 	for _, step := range st.Steps {
 		r := step.Act.R
 		switch step.Act.A {
@@ -192,6 +193,9 @@ func runOne(st Stim) Trace {
 			w.finish[r] = make(chan struct{})
 			w.cancels[r] = cancel
 			w.mu.Unlock()
+			if dead[r] {
+				cancel()
+			}
 			req := newReq(ctx, st.PathOf[r-1], r)
 			started[r] = true
 			go func() {
@@ -205,7 +209,11 @@ func runOne(st Stim) Trace {
 				w.mu.Unlock()
 			}()
 		case "cancel":
-			w.cancels[r]()
+			if c := w.cancels[r]; c != nil {
+				c()
+			} else {
+				dead[r] = true
+			}
 		case "finish":
 			w.mu.Lock()
 			ch := w.finish[r]
